@@ -535,7 +535,15 @@ static void addFrame(sim::Rng& r, Bytes* out, bool allowMalformed) {
   else if (k < 62) pair(refenh::RES_RECEIVED, 0xaa);
   else if (k < 68) pair(refenh::RES_STARTED, r.chance(0.7) ? 0x31 : v);
   else if (k < 74) pair(refenh::RES_FAILED, v);
-  else if (k < 80) pair(refenh::RES_INFO, static_cast<int>(r.below(20)));
+  else if (k < 78) pair(refenh::RES_INFO, static_cast<int>(r.below(20)));
+  else if (k < 80) {
+    // a complete info response: announced length (also longer than any defined info) and about that many data frames
+    static const int lens[] = {1, 2, 8, 9, 15, 16, 17, 18, 25, 40, 200, 255};
+    int len = lens[r.below(12)];
+    pair(refenh::RES_INFO, len);
+    int n = len + static_cast<int>(r.below(5)) - 2;
+    for (int i = 0; i < n; i++) pair(refenh::RES_INFO, static_cast<int>(r.below(256)));
+  }
   else if (k < 83) pair(refenh::RES_ERROR_EBUS, static_cast<int>(r.below(3)));
   else if (k < 85) pair(refenh::RES_ERROR_HOST, static_cast<int>(r.below(3)));
   else if (k < 88) pair(refenh::RES_RESETTED, static_cast<int>(r.below(2)));
